@@ -154,6 +154,20 @@ def outcome(thunk):
     return ("obj", type(r).__name__, r)
 
 
+def construct(ctor):
+    """('ok', object) or the classified exception outcome of a constructor call."""
+    try:
+        return ("ok", ctor())
+    except DomainError:
+        return ("dom",)
+    except CoordinateMissing:
+        return ("miss",)
+    except RecursionError:
+        return ("exc", "RecursionError", "")
+    except Exception as ex:  # noqa: BLE001
+        return ("exc", type(ex).__name__, str(ex)[:200])
+
+
 def kind(o) -> str:
     return o[0]
 
